@@ -29,6 +29,8 @@ type CNode struct {
 	Proxy  *Proxy
 	Client *RecClient
 	Up     bool
+	// PreOpen, if set, runs on the new drv.Node before its store opens.
+	PreOpen func(n *drv.Node)
 }
 
 // Cluster is a set of nodes sharing one lease service.
@@ -61,7 +63,8 @@ func (c *Cluster) Start(i int) error {
 	cn.Client = rc
 	n, err := drv.NewNode(drv.Config{
 		Dir: cn.Dir, Candidate: cn.Opts.Candidate, HTTP: true, Client: rc,
-		Leaser: c.Svc.Leaser(cn.Name, cn.Name, cn.Proxy.URL()),
+		Leaser:  c.Svc.Leaser(cn.Name, cn.Name, cn.Proxy.URL()),
+		PreOpen: cn.PreOpen,
 		Tune: func(s *litefs.Store) {
 			s.DatabaseFilter = cn.Opts.Filter
 			if cn.Opts.Tune != nil {
